@@ -229,8 +229,9 @@ def handle (req : Json) : Except String Json := do
         let (n, vi) := specC02 c iInit (ops.zip iSteps) iTwin
         let (_, vm) := specC02 c mInit (ops.zip mSteps) mTwin
         -- a known finding is reported only on runs where code and model agree on everything else observed
-        let noOwn (s : StepObs) : StepObs := { s with st := { s.st with own := [] } }
-        let sameModOwn := decide ({ iInit with own := [] } = { mInit with own := [] }) && decide (iSteps.map noOwn = mSteps.map noOwn)
+        let noOwnS (s : State) : State := { s with own := [] }
+        let noOwn (s : StepObs) : StepObs := { s with st := noOwnS s.st }
+        let sameModOwn := decide (noOwnS iInit = noOwnS mInit) && decide (iSteps.map noOwn = mSteps.map noOwn)
         let gate : Option String → Option String := fun
           | some w => if w.startsWith "finding:" && !sameModOwn then none else some w
           | none => none
